@@ -1,0 +1,47 @@
+//go:build verif
+
+package fsnotify
+
+// Contracts for shared.go, read by /verif's verification-condition generator.
+// Comment-only; compiled only with -tags verif.
+
+// Channel roles: `done` is closed by whoever calls Close first and is never
+// sent on; Events and Errors are sent on and closed by the reader goroutine only.
+//@ chan shared.done extclose closeonly guard=shared.mu
+//@ chan shared.Events sender=reader closer=reader
+//@ chan shared.Errors sender=reader closer=reader
+//@ immutable shared.Events, shared.Errors, shared.done
+
+//@ func (w *shared) sendEvent(e Event) (ok bool)
+//@   requires token(reader)                                                         [C03 C06] "only the reader goroutine sends"
+//@   requires w.Events != nil && !closed(w.Events)                                  [C06] "nothing is sent on a closed channel"
+//@   requires nolocks() || closed(w.done)                                           [C05] "a send that may block is made without holding a lock"
+//@   ensures  e.Op == 0 ==> ok && hist(w.Events) == old(hist(w.Events))             [C02] "an empty operation set is never delivered"
+//@   ensures  e.Op != 0 && ok ==> hist(w.Events) == snoc(old(hist(w.Events)), e)    [C01 C03 C14] "the event is delivered: blocking send, never dropped"
+//@   ensures  e.Op != 0 && !ok ==> closed(w.done) && hist(w.Events) == old(hist(w.Events))   [C01 C05 C13] "the only way not to deliver is a closed watcher"
+//@   ensures  hist(w.Errors) == old(hist(w.Errors))                                 [C10]
+//@   ensures  !closed(w.Events) && (closed(w.Errors) <==> old(closed(w.Errors)))    [C06]
+
+//@ func (w *shared) sendError(err error) (ok bool)
+//@   requires token(reader)                                                         [C06]
+//@   requires w.Errors != nil && !closed(w.Errors)                                  [C06]
+//@   requires nolocks() || closed(w.done)                                           [C05]
+//@   ensures  err == nil ==> ok && hist(w.Errors) == old(hist(w.Errors))            [C10]
+//@   ensures  err != nil && ok ==> hist(w.Errors) == snoc(old(hist(w.Errors)), err) [C01 C10] "the error is delivered on Errors"
+//@   ensures  err != nil && !ok ==> closed(w.done) && hist(w.Errors) == old(hist(w.Errors))  [C05 C10 C13]
+//@   ensures  hist(w.Events) == old(hist(w.Events))                                 [C03]
+//@   ensures  !closed(w.Errors) && (closed(w.Events) <==> old(closed(w.Events)))    [C06]
+
+//@ func (w *shared) isClosed() (r bool)
+//@   requires w.done != nil
+//@   ensures  r ==> closed(w.done)                                                  [C06 C13]
+//@   ensures  old(closed(w.done)) ==> r                                             [C06] "once closed, always reported closed"
+
+//@ func (w *shared) close() (already bool)
+//@   requires w.done != nil
+//@   requires nolocks()                                                             [C05 C07]
+//@   ensures  closed(w.done)                                                        [C05 C06]
+//@   ensures  old(closed(w.done)) ==> already                                       [C05] "a second Close is told so"
+//@   ensures  nolocks()                                                             [C05 C07]
+
+//@ lockorder shared.mu < inotify.cookiesMu
